@@ -85,16 +85,26 @@ def gen_scenario(rng, guards, soft_ok=False, listen=None, allow_null_fallback=Fa
         elif kind == "slow": p1, p2 = rng.choice([1, 5, 20]), rng.choice([16, 64, 512])
         else: p1, p2 = rng.randint(0, 3), rng.randint(0, 1)
         soft = 1 if (soft_ok and kind in ("leave", "abrupt", "slow") and rng.random() < 0.6) else 0
+        # capability class: a quarter of the clients do not announce NewFBSize (the framebuffer only
+        # ever changes to one of the same size in these scenarios)
+        if rng.random() < 0.25: soft |= 2
         L.append("peer %d %s %d %d %d" % (k, kind, p1, p2, soft))
     if not has_abandon and rng.random() < 0.15:
         # deferUpdateTime 0: the output thread polls with usleep(0) until the handshake is over; with an
         # abandoned handshake that is a busy loop which only burns the step budget
         t = L[0].split(); t[3] = "0"; L[0] = " ".join(t)
     pending = list(range(npeers)); rng.shuffle(pending)
-    L.append("connect %d" % pending.pop())
+    connected = [pending.pop()]
+    L.append("connect %d" % connected[0])
     for _ in range(rng.randint(3, 14)):
         r = rng.random()
-        if pending and r < 0.25: L.append("connect %d" % pending.pop())
+        if pending and r < 0.25:
+            connected.append(pending.pop()); L.append("connect %d" % connected[-1])
+        elif r < 0.29:
+            L.append("drop %d" % rng.choice(connected))
+        elif r < 0.32:
+            ks = rng.sample(connected, rng.randint(1, min(2, len(connected))))
+            L.append("iterhold %d %d %s" % (rng.randint(0, 2), rng.choice([5, 60]), " ".join(map(str, ks))))
         elif r < 0.45: L.append("sleep %d" % rng.choice([0, 1, 3, 10, 50, 200]))
         elif r < 0.62:
             x, y = rng.randrange(w), rng.randrange(h)
@@ -114,6 +124,79 @@ def gen_scenario(rng, guards, soft_ok=False, listen=None, allow_null_fallback=Fa
     L.append("shutdown")
     L.append("cleanup")
     return "\n".join(L) + "\n"
+
+
+def _cfg(rng, w, h, defer, lis, maxwait, guards, sndbuf=0):
+    return "cfg %d %d %d %d %d %d %d %d 400000 %d %d %d %d" % (
+        w, h, defer, lis, maxwait, rng.getrandbits(40), rng.choice([0, 1, 2]), rng.randint(1, 4), rng.choice([50, 80, 95]),
+        rng.choice([300, 1000, 3000]), guards, sndbuf)
+
+
+def fam_stall(rng, guards):
+    """slow reader / stalled writer: a client stops reading with more than a socket buffer queued, for
+    less or more than maxClientWait + one 5 s retry step of rfbWriteExact; afterwards every thread of
+    the client must be gone and no mutex may be left locked"""
+    out = []
+    for lis in (0, 1):
+        for ms, after in ((1000, 1), (8000, 0), (8000, 1), (12000, 1)):
+            for extra in ("none", "bell", "mark"):
+                L = [_cfg(rng, 64, 48, 2, lis, rng.choice([100, 1000]), guards, 2048),
+                     "peer 0 stall %d %d 0" % (ms, after), "peer 1 stay 0 0 0"]
+                order = [0, 1] if rng.random() < 0.5 else [1, 0]
+                L += ["connect %d" % order[0], "connect %d" % order[1], "sleep 200", "mark 0 0 64 48 %d" % rng.getrandbits(20)]
+                if extra == "bell": L += ["sleep 2000", "bell"]
+                elif extra == "mark": L += ["sleep 2000", "mark 5 5 20 20 %d" % rng.getrandbits(20)]
+                L += ["sleep %d" % (ms + 1000), "mark 3 3 10 10 %d" % rng.getrandbits(20), "settle 4000", "shutdown", "cleanup"]
+                out.append(("fam-stall", "\n".join(L) + "\n", None))
+    return out
+
+
+def fam_iterhold(rng, guards):
+    """an application iterator rests on a client while that client and / or its list neighbours
+    disconnect in every order, then advances; the list is (last connected) ... (first connected)"""
+    import itertools
+    out = []
+    combos = []
+    for n in (2, 3):
+        seqs = [p for r in range(1, n + 1) for p in itertools.permutations(range(n), r)]
+        allc = [(n, h, sq) for h in range(n) for sq in seqs]
+        combos += allc if n == 2 else rng.sample(allc, 16)
+    for n, h, sq in combos:
+        lis = rng.randint(0, 1)
+        L = [_cfg(rng, 16, 8, rng.choice([1, 2, 5]), lis, 300, guards)]
+        L += ["peer %d stay 0 0 %d" % (k, rng.choice([0, 0, 2])) for k in range(n)]
+        for k in range(n): L += ["connect %d" % k, "sleep 100"]
+        L += ["iterhold %d %d %s" % (h, rng.choice([5, 60]), " ".join(map(str, sq)))]
+        L += [rng.choice(["bell", "iter", "cut 5", "sleep 20"]), "mark 1 1 4 4 %d" % rng.getrandbits(20), "settle 2000", "shutdown", "cleanup"]
+        out.append(("fam-iterhold", "\n".join(L) + "\n", None))
+    return out
+
+
+def fam_newfb(rng, guards):
+    """rfbNewFramebuffer with idle (waiting) and busy output threads, clients of each capability class
+    (with / without NewFBSize), and NO rfbMarkRectAsModified afterwards: every client that stays must
+    end up showing the new framebuffer"""
+    out = []
+    for lis in (0, 1):
+        for idle in (300, 0):
+            for pre in ("none", "mark"):
+                for defer in (1, 5):
+                    w, h = rng.choice([(16, 8), (32, 16)])
+                    L = [_cfg(rng, w, h, defer, lis, 300, guards),
+                         "peer 0 stay 0 0 2", "peer 1 stay 0 0 0", "peer 2 slow %d 64 2" % rng.choice([1, 5])]
+                    ks = [0, 1, 2]; rng.shuffle(ks)
+                    L += ["connect %d" % k for k in ks[:rng.randint(2, 3)]]
+                    L += ["sleep 300"]
+                    if pre == "mark": L += ["mark 1 1 6 6 %d" % rng.getrandbits(20)]
+                    if idle: L += ["sleep %d" % idle]
+                    L += ["newfb %d %d %d" % (w, h, rng.getrandbits(20)), "settle 4000", "shutdown", "cleanup"]
+                    out.append(("fam-newfb", "\n".join(L) + "\n", None))
+    # NewFBSize-capable clients only: the size changes as well
+    for lis in (0, 1):
+        L = [_cfg(rng, 16, 8, 2, lis, 300, guards), "peer 0 stay 0 0 0", "peer 1 stay 0 0 0", "connect 0", "connect 1", "sleep 300",
+             "newfb 32 16 %d" % rng.getrandbits(20), "settle 4000", "shutdown", "cleanup"]
+        out.append(("fam-newfb", "\n".join(L) + "\n", None))
+    return out
 
 
 def gen_cycles(rng, guards, n):
@@ -185,7 +268,7 @@ def analyse(script, rc, out, err):
     evs, res = parse(out)
     probs = []
     ops = [l.split() for l in script.splitlines() if l.strip() and not l.startswith("#")]
-    has_soft = any(o[0] == "peer" and o[5] == "1" for o in ops)
+    has_soft = any(o[0] == "peer" and (int(o[5]) & 1) for o in ops)
     null_fb = any(o[0] == "cututf8" and o[2] == "0" for o in ops)
     cfgl = ops[0]; listen = cfgl[4] == "1"; guards = int(cfgl[12]) if len(cfgl) > 12 else 0
     ended = [r for r in res if r.startswith("end ")]
@@ -333,6 +416,9 @@ def analyse(script, rc, out, err):
                 add("%d library thread(s) exited but never joined" % unj, fin, None)
         elif t[0] == "held-at-end":
             pass      # reported through the blocked thread / alive thread above
+        elif t[0] == "exit-holding":
+            add("thread %s ended while it still owned mutex %s (nobody can unlock it any more)" % (t[1], t[2]),
+                "writeexact-lock-leak" if t[2].startswith("O") else None, "\n".join(threads))
         elif t[0] == "cycle":
             kv = dict(x.split("=") for x in t[1:])
             n = int(kv["n"]); grow = int(kv["unjoined_after"]) - int(kv["unjoined_before"])
@@ -383,6 +469,10 @@ def run(ctx):
                 txt = open(os.path.join(CORPUS, f)).read()
                 m = re.search(r"^# expect: (\S+)", txt, re.M)
                 scripts.append(("corpus/" + f, txt, m.group(1) if m else "ok"))
+        # deterministic scenario families (parameter grids; only the scheduler seed / mode is drawn)
+        reps = 1 if ctx.tier == "quick" else 6
+        for _ in range(reps):
+            scripts += fam_stall(ctx.rng, base_guards) + fam_iterhold(ctx.rng, base_guards) + fam_newfb(ctx.rng, base_guards)
         n = 2000 if ctx.tier == "quick" else 40000
         for k in range(n):
             r = ctx.rng.random()
@@ -445,11 +535,10 @@ def run(ctx):
 
 
 PARTIAL = [
-    "no_uaf (a client record is dereferenced only while allocated; free only with refCount = 0 after unlinking) is stated at full strength in Props/C13.lean as a comment; proved so far: exact mutex ownership per program counter, lock order, no lock cycle, waiters hold nothing. The refcount/lifecycle invariants are not proved in Lean yet: use-after-free and double free are covered by the ASan oracle on every explored schedule only",
-    "gone_once is covered by the hook-count oracle on every explored schedule, not proved in Lean",
-    "full deadlock freedom (a reachable state in which no thread can step has only terminated threads) is not proved: proved is the absence of cycles among mutex waits plus `waiters_hold_nothing`; a lost wake-up would not be excluded by the Lean part (it is searched for by the scheduler: watchdog)",
+    "full deadlock freedom (a reachable state in which no thread can step has only terminated threads) is not proved. Proved: lock order, no lock cycle, `mutex_waits_resolve` (whoever owns a mutex can step or waits for a higher owned mutex: no deadlock that involves mutexes only, no mutex left locked by an ended / sleeping thread), `waiters_hold_nothing`, `shutdown_wakeup_not_lost` + `output_join_cannot_hang` (clientInput's join of its output thread). Not proved: that the waits on deleteCond (rfbClientConnectionGone waiting for references) and the joins inside rfbShutdownServer are always eventually satisfied; lost wake-ups there are searched for by the scheduler's deadlock / hang detection on the explored schedules only",
     "shutdown_terminates / threads_reclaimed: not proved in Lean; the join structure (app joins listener and input threads, input joins output) is part of the model and checked by trace inclusion; unjoined client threads are a known finding",
     "the theorems are about the model's schedules; the real code is tied by the T0 skeleton and by trace inclusion over the sampled schedules only (deterministic scheduler preempts at synchronisation/IO calls, not between plain loads and stores)",
+    "data-dependent behaviour (what rfbSendFramebufferUpdate sends, whether a client ends up with the right picture, e.g. a missing TSIGNAL after rfbNewFramebuffer) is outside the Lean model; it is covered by the final-picture oracle of the harness",
 ]
 ASSUMPTIONS = [
     "application thread calls rfbShutdownServer then rfbScreenCleanup itself (not from a client callback)",
@@ -459,7 +548,7 @@ ASSUMPTIONS = [
 
 META = {
     "technique": "Lean 4 interleaving model of the threaded server + inductive invariants over all schedules; T0 synchronisation skeleton; real threaded code under a deterministic seeded scheduler with event-trace inclusion in the model and model-independent oracles",
-    "level_text": "Proof: lean/VncModel/Threads is an interleaving transition system of the application, listener and per-client input/output threads with atomic steps at every LOCK/UNLOCK/WAIT/TSIGNAL/iterator/free/join point; Props/C13.lean proves no use-after-free / free only unreferenced+unlinked, gone hook at most once, lock-order acyclicity and freedom from lock cycles, shutdown structure, by invariants over all schedules and any number of clients. Tied to the code on every run by the regenerated synchronisation skeleton (decide) and by running the real threaded server under a deterministic scheduler whose event traces are replayed through the model (trace inclusion), plus direct oracles (deadlock/hang, ASan, hook counts, final pictures, thread reclamation).",
+    "level_text": "Proof: lean/VncModel/Threads is an interleaving transition system of the application, listener and per-client input/output threads with atomic steps at every LOCK/UNLOCK/WAIT/TSIGNAL/iterator/free/join point; Props/C13.lean proves, by inductive invariants over all schedules and any number of clients: no use-after-free and no double free (life-cycle invariant: referenced => linked => allocated, free only unlinked + unreferenced + output thread joined), exact reference counts, client-gone hook at most once / exactly once before the record is freed, exact mutex ownership per program counter, lock-order acyclicity, no lock cycle, every mutex wait resolves (owner can run or waits for a higher mutex), waiters hold nothing, the shutdown wake-up of the output thread is never lost. Tied to the code on every run by the regenerated synchronisation skeleton (decide) and by running the real threaded server under a deterministic scheduler whose event traces are replayed through the model (trace inclusion), plus direct oracles (deadlock/hang, ASan, hook counts, final pictures, thread reclamation).",
     "level_note": "Trusted: Lean kernel; harness scheduler/interposers; pthread semantics as modelled; schedules are sampled (seeded PCT/random), not enumerated. The theorems are about the model's schedules; real-schedule exploration validates the model. Not modelled: TLS/WebSocket/file-transfer threads, rfbProcessEvents mode, client-callback-initiated shutdown.",
     "design_ref": "DESIGN.md section 7, C13",
 }
